@@ -328,7 +328,9 @@ def c07_9(ctx: Ctx):
     ctx.check(ok, ap, sb[0] if sb else ap.node, "blocks are sorted by address *inside* the prepared context (after layout assigned addresses)",
               "sorted_blocks is computed before prepare_for_rewriting ran: without addresses the stable sort keeps set order, so patch ids / label suffixes / callback order vary from run to run")
     if sb:
-        ctx.check("key=lambda b: b.address or 0" in src(sb[0]), ap, sb[0], "sorted by address", "sort key changed")
+        kw = next((k.value for c in ast.walk(sb[0]) if isinstance(c, ast.Call) and src(c.func) == "sorted" for k in c.keywords if k.arg == "key"), None)
+        first = (kw.body.elts[0] if isinstance(kw.body, ast.Tuple) else kw.body) if isinstance(kw, ast.Lambda) else None
+        ctx.check(first is not None and src(first) == f"{kw.args.args[0].arg}.address or 0", ap, sb[0], "sorted by address first (ties: C02.7)", "the primary sort key is no longer the address")
     fi_ = [n for n in walk_no_nested(ap.node) if isinstance(n, ast.For) and "self._function_insertions" in src(n.iter)]
     ctx.check(len(fi_) == 2 and "_insert_function_stub" in src(fi_[0]) and "_apply_function_insertion" in src(fi_[1]), ap, ap.node,
               "all function stubs are created before any function body is assembled", "stub/body loops changed")
